@@ -11,12 +11,14 @@ import PasskeyVerif.Driver.Secrets
 import PasskeyVerif.Driver.U2f
 import PasskeyVerif.Driver.Concurrent
 import PasskeyVerif.Driver.Decoders
+import PasskeyVerif.Driver.WebJson
 open PasskeyVerif
 
 structure DriverState where
   hid : Driver.Hid.St := {}
   au : Driver.Auth.St := {}
   cc : Driver.Concurrent.St := {}
+  js : Driver.WebJson.St := {}
 
 def stepLine (st : DriverState) (line : String) : DriverState × String :=
   let (opS, impl) := match splitTab line with
@@ -35,6 +37,9 @@ def stepLine (st : DriverState) (line : String) : DriverState × String :=
     else if tok.startsWith "cl." then
       let (a, out) := Driver.Client.step st.au op impl
       ({ st with au := a }, out)
+    else if tok.startsWith "js." then
+      let (j, out) := Driver.WebJson.step st.js op impl
+      ({ st with js := j }, out)
     else if tok.startsWith "dec." then (st, Driver.Decoders.step op impl)
     else if tok.startsWith "cc." then
       let (a, c, out) := Driver.Concurrent.step st.au st.cc op impl
